@@ -359,7 +359,19 @@ func (w *World) tOne(toks []string) {
 	var wg sync.WaitGroup
 	wg.Add(2)
 	var errA, errB error
-	conc := len(toks) > 5 && toks[5] == "conc"
+	conc := false
+	var third []byte
+	hasThird := false
+	for _, t := range toks[5:] {
+		if t == "conc" {
+			conc = true
+		}
+		if strings.HasPrefix(t, "third=") {
+			// a peer that is not an end of the channel publishes on the pairwise topic (its name is
+			// derived from two public peer ids): nothing of it may be handed on as coming from a or b
+			third, hasThird = unhx(strings.TrimPrefix(t, "third=")), true
+		}
+	}
 	if conc {
 		// two stores of one instance see the peer join in the same poll: both call Connect
 		bus.mu.Lock()
@@ -372,6 +384,17 @@ func (w *World) tOne(toks []string) {
 	go func() { errB = cb.Connect(ctx, tpeer(a)); wg.Done() }()
 	wg.Wait()
 	pa, pb := commaHex(toks[3]), commaHex(toks[4])
+	if hasThird {
+		bus.mu.Lock()
+		var ts []string
+		for t := range bus.subs {
+			ts = append(ts, t)
+		}
+		bus.mu.Unlock()
+		for _, t := range ts {
+			_ = (&fakePubSubAPI{bus: bus, id: tpeer(9)}).Publish(ctx, t, third)
+		}
+	}
 	for i := 0; i < len(pa) || i < len(pb); i++ {
 		if i < len(pa) {
 			_ = ca.Send(ctx, tpeer(b), pa[i])
